@@ -197,6 +197,9 @@ pub enum Kind_ {
     Accept,
     AcceptNoAddr,
     MultishotAccept,
+    /// Accept on a listener that is a direct descriptor (results are direct descriptors).
+    AcceptDirect,
+    MultishotAcceptDirect,
     Connect,
     Bind,
     Listen,
@@ -258,6 +261,8 @@ pub const ALL_KINDS: &[Kind_] = &[
     Kind_::Accept,
     Kind_::AcceptNoAddr,
     Kind_::MultishotAccept,
+    Kind_::AcceptDirect,
+    Kind_::MultishotAcceptDirect,
     Kind_::Connect,
     Kind_::Bind,
     Kind_::Listen,
@@ -303,7 +308,7 @@ impl Kind_ {
     pub fn class(self) -> Class {
         use Kind_::*;
         match self {
-            MultishotRead | MultishotRecv | MultishotAccept => Class::Multi,
+            MultishotRead | MultishotRecv | MultishotAccept | MultishotAcceptDirect => Class::Multi,
             SendZc | SendToZc | SendVectoredZc => Class::TwoStep,
             ReadN | WriteAll | WriteAllVectored | SendAll | RecvN => Class::Composite,
             _ => Class::Single,
@@ -313,14 +318,14 @@ impl Kind_ {
         matches!(self, Kind_::ReadPool | Kind_::MultishotRead | Kind_::RecvPool | Kind_::MultishotRecv)
     }
     pub fn needs_direct(self) -> bool {
-        matches!(self, Kind_::SocketDirect | Kind_::OpenDirect | Kind_::OpenDirectExtract | Kind_::PipeDirect | Kind_::ToDirect | Kind_::ToFile)
+        matches!(self, Kind_::SocketDirect | Kind_::OpenDirect | Kind_::OpenDirectExtract | Kind_::PipeDirect | Kind_::ToDirect | Kind_::ToFile | Kind_::AcceptDirect | Kind_::MultishotAcceptDirect)
     }
     /// Creates descriptors for the caller.
     pub fn creates_fd(self) -> bool {
         use Kind_::*;
         matches!(
             self,
-            Accept | AcceptNoAddr | MultishotAccept | Socket | SocketDirect | Open | OpenDirect | OpenExtract | OpenDirectExtract | Pipe | PipeDirect | ToDirect | ToFile
+            Accept | AcceptNoAddr | MultishotAccept | AcceptDirect | MultishotAcceptDirect | Socket | SocketDirect | Open | OpenDirect | OpenExtract | OpenDirectExtract | Pipe | PipeDirect | ToDirect | ToFile
         )
     }
     /// Result is a byte count chosen by the kernel.
@@ -476,6 +481,11 @@ pub fn make(kind: Kind_, env: &Env, rng: &mut Rng) -> Box<dyn DynOp> {
             Err(e) => Outcome::err(&e),
         }),
         MultishotAccept => iter_op(fd.multishot_accept(), |it, cx| it.poll_next(cx), map_afd),
+        AcceptDirect => fut_op(env.dfd.expect("direct fd").accept::<a10::net::NoAddress>(), |r: io::Result<(AsyncFd, a10::net::NoAddress)>| match r {
+            Ok((afd, _)) => map_afd(Ok(afd)),
+            Err(e) => Outcome::err(&e),
+        }),
+        MultishotAcceptDirect => iter_op(env.dfd.expect("direct fd").multishot_accept(), |it, cx| it.poll_next(cx), map_afd),
         Connect => fut_op(fd.connect(sockaddr_v4(7003)), map_unit),
         Bind => fut_op(fd.bind(sockaddr_v4(7004)), map_unit),
         Listen => fut_op(fd.listen(128), map_unit),
